@@ -12,6 +12,7 @@ import (
 	"strconv"
 	"sync"
 	"sync/atomic"
+	"syscall"
 	"time"
 
 	"github.com/vicanso/pike/cache"
@@ -307,6 +308,36 @@ func FreePorts(n int) []int {
 		panic("no free ports")
 	}
 	return ports
+}
+
+// ReservePort binds (without listening) a loopback port so that no other socket on the machine is given it:
+// connections to it are refused exactly as if nothing were there. reuse: set SO_REUSEADDR - needed for a port that
+// has just been served on (connections in TIME_WAIT); the kernel then still keeps listeners on port 0 and
+// outgoing connections off the port. Without reuse an explicit Listen on the port by anybody fails as well.
+// Returns the descriptor (close it to release the port).
+func ReservePort(port int, reuse bool) (int, error) {
+	fd, err := syscall.Socket(syscall.AF_INET, syscall.SOCK_STREAM|syscall.SOCK_CLOEXEC, 0)
+	if err != nil {
+		return -1, err
+	}
+	if reuse {
+		syscall.SetsockoptInt(fd, syscall.SOL_SOCKET, syscall.SO_REUSEADDR, 1)
+	}
+	if err := syscall.Bind(fd, &syscall.SockaddrInet4{Port: port, Addr: [4]byte{127, 0, 0, 1}}); err != nil {
+		syscall.Close(fd)
+		return -1, err
+	}
+	return fd, nil
+}
+
+// DeadPort a loopback port on which nobody listens and nobody will for the life of this process
+func DeadPort() int {
+	for {
+		p := FreePorts(1)[0]
+		if _, err := ReservePort(p, false); err == nil {
+			return p
+		}
+	}
 }
 
 // PRNGBytes reproducible payload of n bytes. kind: "rand" (incompressible), "text"
